@@ -245,7 +245,8 @@ def _known_findings() -> List[Dict[str, Any]]:
 def classify(pid: str, mechanism: str) -> Optional[Dict[str, Any]]:
     """Returns the *open* known finding that lists exactly this property + mechanism key."""
     for kf in _known_findings():
-        if kf.get('status') == 'open' and kf.get('property') == pid and kf.get('mechanism') == mechanism:
+        if kf.get('status') == 'open' and kf.get('property') == pid and \
+                (kf.get('mechanism') == mechanism or mechanism in kf.get('mechanisms', [])):
             return kf
     return None
 
@@ -363,8 +364,12 @@ def run_check(pid: str, tier: str, seed: int, shards: Optional[int] = None,
     if replay_case is None:
         write_evidence(pid, tier, seed, meta, merged, wall, new, known, problems, floor_fail, nshards)
 
+    by_finding: Dict[str, List[Any]] = {}
     for mech, v, kf in known:
-        print(f"KNOWN-FINDING: property={pid} {kf['what']} [mechanism={mech} occurrences={v['count']}]")
+        by_finding.setdefault(kf['what'], []).append((mech, v['count']))
+    for what, hits in by_finding.items():
+        print(f"KNOWN-FINDING: property={pid} {what} [occurrences={sum(c for _, c in hits)} "
+              f"mechanisms={','.join(m for m, _ in hits)}]")
     for mech, path, v in replay_files:
         print(f'VIOLATION property={pid} replay={path} mechanism={mech} occurrences={v["count"]}')
 
